@@ -107,6 +107,21 @@ func (w *Worker) genC13(rc *simapi.RunConfig) {
 	ex.Variant = variant
 	if ex.Mode == "source" {
 		ex.CloneAll = variant % 3 // the second and third source variant of every file are systematic
+		if ex.CloneAll == 1 {
+			// ... and the second one ends the file with whichever function the rotation
+			// put last: nothing appended, no padding (end-of-file is an edge of its own)
+			ex.Append = 0
+			var keep []padSpec
+			for _, p := range ex.Pads {
+				if p.CloneOf != 0 {
+					keep = append(keep, p)
+				}
+			}
+			ex.Pads = keep
+			for i := range ex.Pads {
+				ex.Pads[i].Before = 0
+			}
+		}
 	}
 	// selection: the package's own checker plus a few others; every fifth run all of them
 	wl := &Workload{Params: map[string]map[string]any{}}
